@@ -253,7 +253,7 @@ def run(ctx, report):
         if cc and name not in ('jmp', 'jmpf', 'jecxz', 'setalc'):
             rname = families[cc[0]]
         e = eff.get(rname)
-        if e is None:
+        if e is None or e['ext']:
             continue
         for dec, tmpl in inst.results:
             if isinstance(tmpl, LiftError) or not isinstance(tmpl, list):
